@@ -47,6 +47,15 @@ def rich_family():
         for order in ("def", "rev"):
             names = [a for a, _ in base_assigns]
             out.append((f"rich|{ln}|{order}", models.spec(states, params, base_assigns, comp=comp, order=names if order == "def" else names[::-1])))
+    # an atom tagged with two components (declared once for both): the component field is the text between the outer quotes
+    sh_states = [("x", n("1.0")), ("y", n("2.0")), ("z", n("0.5"))]
+    sh_params = [("k", n("2.0")), ("p", n("0.5"))]
+    sh_assigns = [("a1", L.bin_("*", v("k"), v("x"))), ("b1", L.bin_("+", L.bin_("*", v("k"), v("y")), v("a1"))), ("c1", L.bin_("+", L.bin_("+", v("a1"), v("b1")), L.bin_("*", v("k"), v("z")))),
+                  ("dx_dt", L.bin_("-", v("a1"), L.bin_("*", v("p"), v("x")))), ("dy_dt", L.bin_("-", v("b1"), v("y"))), ("dz_dt", L.bin_("-", v("c1"), v("z")))]
+    for sn, shared in (("param-AB", {"k": 'A", "B'}), ("param-ABC", {"k": 'A", "B", "C'}), ("param-AB-p-BC", {"k": 'A", "B', "p": 'B", "C'})):
+        comp = {"x": "A", "dx_dt": "A", "a1": "A", "y": "B", "dy_dt": "B", "b1": "B", "z": "C", "dz_dt": "C", "c1": "C", "k": "A", "p": "A"}
+        comp.update(shared)
+        out.append((f"rich|shared|{sn}", models.spec(sh_states, sh_params, sh_assigns, comp=comp)))
     # names chosen so that alphabetical order is against the dependency order
     ren = {"a1": "zz1", "a2": "yy2", "a3": "xx3", "b1": "ww1", "b2": "vv2"}
 
@@ -78,11 +87,15 @@ def items(tier):
     return its
 
 
+def tags(c):
+    return [t for t in c.split('", "')] if c else [""]
+
+
 def ref_missing(sp, comps):
     """names used by the assignments of the given components but not defined there"""
     spn = models.norm(sp)
     comp = spn.get("comp") or {}
-    inside = lambda n: comp.get(n, "") in comps
+    inside = lambda n: any(t in comps for t in tags(comp.get(n, "")))
     defined = {n for n, _ in spn["states"] + spn["params"] + spn["assigns"] if inside(n)}
     used = set()
     for n, a in spn["assigns"]:
@@ -102,7 +115,7 @@ def run_item(item):
         spn = models.norm(sp)
         compmap = spn.get("comp") or {}
         all_names = [n for n, _ in spn["states"] + spn["params"] + spn["assigns"]]
-        comps = sorted({compmap.get(n, "") for n in all_names})
+        comps = sorted({t for n in all_names for t in tags(compmap.get(n, ""))})
         try:
             ode = drive.load(text)
             full = drive.exec_py(drive.py_code(ode, scheme=SCH))
